@@ -9,7 +9,7 @@ import (
 func init() {
 	slip.Define(
 		func(args slip.List) slip.Object {
-			f := Progn{Function: slip.Function{Name: "progn", Args: args}}
+			f := Progn{Function: slip.Function{Name: "progn", Args: args, SkipEval: []bool{true}}}
 			f.Self = &f
 			return &f
 		},
@@ -39,8 +39,13 @@ type Progn struct {
 
 // Call the function with the arguments provided.
 func (f *Progn) Call(s *slip.Scope, args slip.List, depth int) (result slip.Object) {
-	if 0 < len(args) {
-		result = args[len(args)-1]
+	// The forms are evaluated here and not as arguments so that all the
+	// values of the last form are returned.
+	d2 := depth + 1
+	for i := range args {
+		if result = slip.EvalArg(s, args, i, d2); slip.IsExit(result) {
+			break
+		}
 	}
 	return
 }
